@@ -835,6 +835,25 @@ Proof.
   - apply IH; [apply store_step; exact HR|exact Hms].
 Qed.
 
+(* the same walk, keeping the oracle's final state: it is related to the model's final state *)
+Lemma oracle_end_gen quic ms : forall st ost, Rel st ost -> Forall mop_ok ms ->
+  exists ost', hist_end quic ost (map op_of ms) (model_run quic st ms) = Some ost' /\ Rel (model_final quic st ms) ost'.
+Proof.
+  induction ms as [|m ms IH]; intros st ost HR Hok; [exists ost; split; [reflexivity|exact HR]|].
+  inversion Hok as [|m' ms' Hm Hms]; subst. destruct m as [sc ex|c]; cbn [map op_of model_run model_final hist_end].
+  - destruct (fetch_step quic ex st ost sc HR Hm) as [ost' [Hf HR']].
+    destruct (model_fetch quic ex st sc) as [st' o]. cbn [fst snd] in *. cbn [hist_end]. rewrite Hf. apply IH; assumption.
+  - apply IH; [apply store_step; exact HR|exact Hms].
+Qed.
+
+Lemma final_ok_Rel st ost : Rel st ost -> final_ok ost st = true.
+Proof.
+  intros [Hf|[Hp [_ Hinfo]]]; unfold final_ok; [rewrite Hf; reflexivity|].
+  rewrite Hp, bytes_list_eqb_refl. destruct (os_last_ok ost) eqn:Hl; [|apply orb_true_r].
+  destruct (Hinfo eq_refl) as [I1 [I2 [I3 [I4 I5]]]].
+  unfold info_matches. rewrite I1, I2, I3, I4, I5, !bytes_eqb_refl, Z.eqb_refl. apply orb_true_r.
+Qed.
+
 Lemma Rel_init : Rel kzero os0.
 Proof. right. cbn. split; [reflexivity|]. split; [congruence|discriminate]. Qed.
 
@@ -1238,3 +1257,16 @@ Theorem own_server_exchange_quic ex st mk ip port host : exporter_ok ex ->
     = ({| k_c2s := c2s; k_s2c := s2c; k_server := ip; k_port := port;
           k_cookies := map mk (seq 0 8); k_algo := 15 |}, 0).
 Proof. exact (own_server_exchange_of true ex st mk ip port host). Qed.
+
+(* ---------- overlapping calls: the model serialises them, so the serial order it took is a
+   candidate the oracle accepts ---------- *)
+Theorem overlap_oracle_holds_on_model quic ms cands : Forall mop_ok ms ->
+  In (map op_of ms, model_run quic kzero ms) cands ->
+  C20_overlap_ok quic cands (model_final quic kzero ms) = true.
+Proof.
+  intros Hok Hin. unfold C20_overlap_ok. apply existsb_exists.
+  exists (map op_of ms, model_run quic kzero ms). split; [exact Hin|].
+  unfold cand_ok. cbn [fst snd].
+  destruct (oracle_end_gen quic ms kzero os0 Rel_init Hok) as [ost' [He HR]]. rewrite He.
+  apply final_ok_Rel. exact HR.
+Qed.
